@@ -1,11 +1,11 @@
 #!/bin/bash
 # run_mutant.sh <seed-name> <check-id> [tier]
 # Applies /verif/seeded/<seed-name>/patch.diff to a scratch worktree of /repo HEAD and runs the check
-# against it (VERIF_REPO), with evidence/replays redirected to /tmp; removes the worktree afterwards.
+# (or of the commit named by SEED_BASE, for seeds whose target code was rewritten by a later fix) against it (VERIF_REPO), with evidence/replays redirected to /tmp; removes the worktree afterwards.
 seed=$1; id=$2; tier=${3:-quick}
 wt=/tmp/mut/$seed-$id
 rm -rf $wt; mkdir -p /tmp/mut /tmp/mut/ev-$seed-$id
-git -C /repo worktree add -q --detach $wt HEAD || exit 9
+git -C /repo worktree add -q --detach $wt ${SEED_BASE:-HEAD} || exit 9
 git -C $wt apply /verif/seeded/$seed/patch.diff || { echo "patch failed"; git -C /repo worktree remove --force $wt; exit 9; }
 cd /verif
 VERIF_REPO=$wt VERIF_EVIDENCE_DIR=/tmp/mut/ev-$seed-$id VERIF_REPLAY_DIR=/tmp/mut/ev-$seed-$id python3-vt check.py $id $tier
